@@ -151,6 +151,9 @@ func (g *G) MsgStress(allowPlural bool) []Cmd {
 			}
 		}
 		pl.Else = parts(1 + g.Intn(4))
+		if g.Chance(6) {
+			pl.Else = nil // (a plural whose {default} says nothing)
+		}
 		msg.Body = []Cmd{pl}
 	} else {
 		n := 1 + g.Intn(10)
